@@ -533,6 +533,13 @@ func ruleErrSlot(c *Ctx, rule string) {
 		if f.Pkg != nil && f.Pkg.Pkg.Path() == "io/ioutil" && f.Name() == "TempFile" || f.Pkg != nil && f.Pkg.Pkg.Path() == "os" && f.Name() == "CreateTemp" {
 			return "TempFile"
 		}
+		// a helper of the sorter itself that reports its failure as a result (write() error)
+		if f.Pkg == sp && f.Signature.Recv() != nil && isNamed(f.Signature.Recv().Type(), morassPkg, "Morass") {
+			res := f.Signature.Results()
+			if res.Len() == 1 && isErrorType(res.At(0).Type()) && f != errFn && f.Name() != "Clear" && f.Name() != "CleanUp" && !ast_IsExported(f.Name()) {
+				return f.Name()
+			}
+		}
 		if f.Signature.Recv() != nil {
 			rt := f.Signature.Recv().Type()
 			switch {
